@@ -204,6 +204,10 @@ def run_paths(spec):
         gb = np.array(bd["group_velocities"][0])
         eb = np.array(bd["eigenvectors"][0])
         for i in range(len(path[0])):
+            if spec["nac"] != "none" and np.linalg.norm(np.linalg.inv(prim.cell) @ (path[0][i] - np.rint(path[0][i]))) < 1e-9:
+                # a path point that IS the zone centre (e.g. the midpoint between q and -q): the band path takes the limit along the path,
+                # a plain q-point list does not; that case is asserted separately below (segment through the zone centre)
+                continue
             fq = qd["frequencies"][i]
             order_b, order_q = np.argsort(fb[i], kind="stable"), np.argsort(fq, kind="stable")
             if np.abs(_lam(fb[i][order_b], factor) - _lam(fq[order_q], factor)).max() / lsc > 1e-9:
